@@ -53,6 +53,7 @@ pub tracked struct Trace<Req, Res, E> {
     pub ghost admitted: bool,      // unit-specific gate flag (set by the unit's own admission shim)
     pub ghost created: bool,       // the returned future exists (everything before is synchronous in call())
     pub ghost blocked: nat,        // number of awaits performed before the first InnerCall other than the gate's own
+    pub ghost ready_err: Option<E>,   // the readiness error that ended the request (poll_ready failed between attempts)
 }
 impl<Req, Res, E> Trace<Req, Res, E> {
     /// everything that concerns the inner service and the ledger is the same in both traces
@@ -64,7 +65,7 @@ impl<Req, Res, E> Trace<Req, Res, E> {
     pub open spec fn fresh(self) -> bool {
         self.ev.len() == 0 && self.calls == 0 && self.done == 0 && self.held.len() == 0 && self.held.finite() && self.unguarded == 0 && self.slept == 0
             && self.notes.len() == 0 && self.spawned == 0 && self.spawn_at.len() == 0 && self.queue.len() == 0 && self.last_recv is None && !self.tx_alive && self.recv_ok == 0 && self.recv_err == 0 && self.draws == 0 && self.call_at == 0 && self.timer is None && self.awaits_before_timer == 0 && !self.inner_dropped && !self.opaque && self.store_gets.len() == 0 && self.store_inserts.len() == 0 && self.sent.len() == 0 && self.removed == 0 && self.published is None && self.permits == 0 && self.guarded == 0 && self.incs == 0 && self.decs == 0 && self.obs_inflight is None && self.obs_limit is None && self.reqs.len() == 0 && self.slept_since_done == 0 && !self.granted_since_done && !self.denied && self.fb_calls == 0 && self.fb_req is None && self.fb_done is None
-            && self.last_req is None && self.last_done is None && !self.admitted && !self.created && self.blocked == 0
+            && self.last_req is None && self.last_done is None && !self.admitted && !self.created && self.blocked == 0 && self.ready_err is None
     }
 }
 impl<Req, Res, E> Trace<Req, Res, E> {
